@@ -13,8 +13,8 @@ RULE = ('structured extension lists (ids 3..127, frames < nb_frames <= 48, paylo
         'a case is distinct by its (op, outcome kind) class')
 NOT_COVERED = [
     'generate with an invalid payload length (short ID with len > 1, len < 0) => BAD_ARG: tied (S3) and searched (S4) only',
-    'repacketizer carriage of extensions (merge/split): tied differentially through the C07 model (S3, ext-repack) and searched on '
-    'the implementation (S4); theorem left to C07',
+    'repacketizer carriage of extensions (merge/split/pad): the theorem is OpusProps.C07.out_roundtrip_ext (built on generate_parse / '
+    'generate_parse_padded of this property); here it is tied differentially (S3, ext-repack) and searched on the implementation (S4)',
     'opus_int32 overflow of lengths: lengths are unbounded integers in the model (buffers < 2^31 assumed)',
     'iterator with nb_frames = 0 and a caller-raised frame_max > 0 (API misuse; the code then reports frame-0 extensions)',
 ]
@@ -30,8 +30,6 @@ REQUIRED_THEOREMS = ['OpusProps.C16.iter_safe', 'OpusProps.C16.iter_terminates',
 UNPROVED = ['generate: short-ID extension with len > 1 or any extension with len < 0 => OPUS_BAD_ARG (proved only for bad id/frame/'
             'nb_frames: the length check sits inside write_extension_payload; proving that every extension is reached needs the '
             'generator specification re-proved without the length-validity hypothesis)',
-            'repack_carries_ext (with C07): extension carriage through opus_repacketizer_out_range_impl is tied (S3) and searched (S4) '
-            'here; the theorem is stated by the C07 owner on top of generate_parse / scan_agree',
             'int_ranges: lengths/positions are unbounded Int/Nat in the model (opus_int32 overflow for buffers >= 2^31 not excluded)']
 
 
